@@ -31,6 +31,7 @@ extern void *mpt_qpop(MPT_STRUCT(queue) *queue, size_t len, void *data)
 			errno = ERANGE;
 			return 0;
 		}
+		base += low - len;
 		if (data) {
 			memcpy(data, base, len);
 		}
